@@ -100,6 +100,28 @@ async def main():
             await asyncio.sleep(0)
             if net2._expected_response_futures:
                 return True, f'{len(net2._expected_response_futures)} request(s) of a cancelled execute() still registered', None
+            # 6. a command identified by a ticket is completed by the reply that carries the ticket it was SENT with
+            from aioslsk.commands import PeerGetDirectoryContentCommand
+            from aioslsk.protocol.messages import PeerDirectoryContentsReply
+            from aioslsk.network.connection import PeerConnection
+            sent = []
+
+            async def send_peer_messages(username, *messages):
+                sent.extend(messages)
+            client.network.send_peer_messages = send_peer_messages
+            task = asyncio.ensure_future(client.execute(PeerGetDirectoryContentCommand('bob', 'music'), response=True, timeout=0.5))
+            await asyncio.sleep(0.01)
+            if len(sent) == 1:
+                peer = PeerConnection('1.2.3.4', 5, net2, username='bob')
+                reply = PeerDirectoryContentsReply.Request(sent[0].ticket, 'music', [])
+                await net2.on_message_received(reply, peer)
+                try:
+                    await task
+                except (TimeoutError, asyncio.TimeoutError):
+                    return True, (f'execute(PeerGetDirectoryContentCommand) timed out although the reply with the ticket of the request ({sent[0].ticket}) '
+                                  'arrived from that peer'), {'command': 'PeerGetDirectoryContentCommand', 'ticket_sent': sent[0].ticket}
+            else:
+                task.cancel()
         except ImportError:
             pass
         return False, '', None
